@@ -155,3 +155,17 @@ pub proof fn lemma_sumsq_affine(w: Seq<T>, a: real, b: real)
         assert((k + 1real) * (b * b) == k * (b * b) + b * b) by(nonlinear_arith);
     } else { assert((a * a) * 0real == 0real && 2real * (a * b) * 0real == 0real && 0real * (b * b) == 0real) by(nonlinear_arith); }
 }
+// number of unordered pairs among m - 1 values and its closed form (shared by the NET range and trend corollaries)
+pub open spec fn pairs(m: int) -> real decreases m { if m <= 2 { 0real } else { pairs(m - 1) + ((m - 2) as real) } }   // sum_{c=2}^{m-1} (c-1)
+pub proof fn lemma_pairs_closed(m: int)
+    requires m >= 2
+    ensures pairs(m) * 2real == ((m - 1) as real) * ((m - 2) as real)
+    decreases m
+{
+    if m > 2 {
+        lemma_pairs_closed(m - 1);
+        let k = (m - 2) as real;
+        assert((m - 1) as real == k + 1real); assert((m - 3) as real == k - 1real);
+        assert((k + 1real) * k == k * (k - 1real) + 2real * k) by(nonlinear_arith);
+    } else { assert(1real * 0real == 0real) by(nonlinear_arith); }
+}
